@@ -576,7 +576,7 @@ func main() {
 
 	// ---- A
 	e.mergeCase([]uint32{0, 1}, [][]byte{[]byte("AA"), []byte("BB")}) // the recorded witness
-	for i := 0; i < o.N(400, 20000); i++ {
+	for i := 0; i < o.N(400, 12000); i++ {
 		n := e.rnd.Intn(6)
 		seqs := make([]uint32, n)
 		datas := make([][]byte, n)
@@ -590,7 +590,7 @@ func main() {
 		e.mergeCase(seqs, datas)
 	}
 	// ---- B
-	nconf, nhost := o.N(350, 6000), o.N(250, 4000)
+	nconf, nhost := o.N(350, 4000), o.N(250, 2500)
 	for i := 0; i < nconf && r.InfraError == ""; i++ {
 		if sc := e.conformingCase(); sc != nil {
 			e.streamCaseRun(sc)
